@@ -1,9 +1,13 @@
 import XV.Drv.Enc
+import XV.Drv.EncTx
 /-! entry of the `enc` driver: C08 ops (`XV.Drv.Enc`) and C07 ops (`XV.Drv.EncTx`) -/
 namespace XV.Drv.EncMain
 open XV.Drv
 
-def step (_ : Unit) (line : String) : Unit × String := ((), XV.Drv.Enc.stepC08 line)
+def step (_ : Unit) (line : String) : Unit × String :=
+  match XV.Drv.EncTx.stepC07 line with
+  | some r => ((), r)
+  | none => ((), XV.Drv.Enc.stepC08 line)
 
 def run : IO Unit := loop step ()
 
